@@ -83,5 +83,43 @@ def run_check(prop, tier, repo_root, evidence_dir):
         return 2
 
 
+class _QuietPipe:
+    """stdout that survives a reader who went away (`./check C01 | head -1`): the verdict is the exit code and the
+    evidence file, neither may depend on whether somebody reads the report to the end"""
+
+    def __init__(self, f):
+        self._f, self._dead = f, False
+
+    def write(self, s):
+        if self._dead:
+            return len(s)
+        try:
+            return self._f.write(s)
+        except BrokenPipeError:
+            self._dead = True
+            return len(s)
+
+    def flush(self):
+        if not self._dead:
+            try:
+                self._f.flush()
+            except BrokenPipeError:
+                self._dead = True
+
+    def __getattr__(self, a):
+        return getattr(self._f, a)
+
+
 if __name__ == "__main__":
-    sys.exit(main())
+    sys.stdout = _QuietPipe(sys.stdout)
+    rc = main()
+    try:
+        sys.stdout.flush()
+    finally:
+        if getattr(sys.stdout, "_dead", False):
+            # avoid the interpreter's own flush-at-exit complaint
+            try:
+                os.dup2(os.open(os.devnull, os.O_WRONLY), 1)
+            except OSError:
+                pass
+    sys.exit(rc)
